@@ -14,8 +14,9 @@
 (*                ConsolidationGuards admit (a superset of the real        *)
 (*                strategies): method, replacement requirements (capacity  *)
 (*                types, zones), instance-type options, placements         *)
-(*   ChurnAddPod / ChurnFill   while the command waits for validation a    *)
-(*                pod lands on a removed node / the remaining node fills up*)
+(*   ChurnAddPod / ChurnFill / ChurnReprice   while the command waits for  *)
+(*                validation a pod lands on a removed node / the remaining *)
+(*                node fills up / the spot prices jump                     *)
 (*   Validate     the command is issued iff the guards still hold          *)
 (*   Launch(t,o)  the provider launches the replacement as ANY launch the  *)
 (*                request allows: primary = an offering of the capacity    *)
@@ -49,13 +50,15 @@ TCpu(i) == IF i = 1 THEN 2000 ELSE 2 * TCpu(i - 1)
 VARIABLES sc, cmd, phase, launch, wk
 vars == <<sc, cmd, phase, launch, wk>>
 WeakPrice == {"le", "cheapest", "noPin", "s2sFlag", "s2sFew", "s2sNoTruncate", "sameType", "twoReplacements"}
-WeakPods == {"emptyCost", "noHome", "noRevalidate"}
+WeakPods == {"emptyCost", "noHome", "noRevalidate", "noReprice"}
 AllWeak == WeakPrice \cup WeakPods
 
 \* ---------------------------------------------------------------- the price table of a scenario
 Offered(s, i, ct, z) == z = "za" \/ s.zmod[ct] # "none"
 Avail(s, i, ct, z) == z = "za" \/ s.zmod[ct] # "unavail"
-Price(s, i, ct, z) == IF z = "zb" /\ s.zmod[ct] = "dear" THEN s.base[i][ct] + 2 ELSE s.base[i][ct]
+\* s.spike: the spot prices went up by 4 while a command waited (price-table churn)
+Price(s, i, ct, z) == (IF z = "zb" /\ s.zmod[ct] = "dear" THEN s.base[i][ct] + 2 ELSE s.base[i][ct])
+                      + (IF ct = Spot /\ s.spike THEN 4 ELSE 0)
 \* the four offerings of a type, in a fixed order (one that is not offered is simply never available)
 OffSeq == <<<<Spot, "za">>, <<Spot, "zb">>, <<OnDemand, "za">>, <<OnDemand, "zb">>>>
 Usable(s, i, ct, z) == Offered(s, i, ct, z) /\ Avail(s, i, ct, z)
@@ -156,7 +159,7 @@ Scenarios ==
             zmod : IF Focus = "price" THEN [CTs -> ZMods] ELSE {[ct \in CTs |-> "same"]},
             cands : UNION {[1..n -> CandSet] : n \in 1..MaxCands},
             rest : IF Focus = "pods" THEN {-1, 0, 1000, 4000} ELSE {-1},
-            extra : {0}, flag : IF Focus = "pods" THEN {TRUE} ELSE BOOLEAN] :
+            extra : {0}, spike : {FALSE}, flag : IF Focus = "pods" THEN {TRUE} ELSE BOOLEAN] :
         \* price focus: the removed nodes are a multiset (canonical order); pods focus: only the first one varies its
         \* pod's selector and eviction cost
         /\ (IF Focus = "price" THEN Sorted(s.cands)
@@ -187,9 +190,14 @@ ChurnAddPod == /\ phase = "waiting" /\ Focus = "pods" /\ sc.extra = 0 /\ cmd.met
                /\ sc' = [sc EXCEPT !.extra = 2000] /\ phase' = "churned" /\ UNCHANGED <<cmd, launch, wk>>
 ChurnFill == /\ phase = "waiting" /\ Focus = "pods" /\ sc.rest > 0 /\ cmd.method # "emptiness"
              /\ sc' = [sc EXCEPT !.rest = 0] /\ phase' = "churned" /\ UNCHANGED <<cmd, launch, wk>>
-\* pods that arrived are not in the command's own placements: the guard's search must find them a home
+\* ... or the price table changes (pods focus only: the fixed table's spot prices jump)
+ChurnReprice == /\ phase = "waiting" /\ Focus = "pods" /\ ~sc.spike /\ cmd.nrepl >= 1
+                /\ sc' = [sc EXCEPT !.spike = TRUE] /\ phase' = "churned" /\ UNCHANGED <<cmd, launch, wk>>
+\* pods that arrived are not in the command's own placements: the guard's search must find them a home; the command is
+\* re-priced against the current table (weakening "noReprice": homes are re-validated, prices are those of the decision)
 Validate == /\ phase \in {"waiting", "churned"}
-            /\ IF wk = "noRevalidate" \/ Admit(sc, cmd) THEN phase' = "issued" ELSE phase' = "abandoned"
+            /\ IF wk = "noRevalidate" \/ Admit(IF wk = "noReprice" THEN [sc EXCEPT !.spike = FALSE] ELSE sc, cmd)
+               THEN phase' = "issued" ELSE phase' = "abandoned"
             /\ UNCHANGED <<sc, cmd, launch, wk>>
 \* any launch the request allows
 LaunchPrimary(i, j) ==
@@ -208,7 +216,7 @@ NoLaunch == /\ phase = "issued" /\ cmd.nrepl = 0
             /\ launch' = [kind |-> "none"] /\ phase' = "launched" /\ UNCHANGED <<sc, cmd, wk>>
 
 Next == \/ \E c \in Commands(sc) : Decide(c)
-        \/ ChurnAddPod \/ ChurnFill \/ Validate
+        \/ ChurnAddPod \/ ChurnFill \/ ChurnReprice \/ Validate
         \/ \E i \in 1..NTypes, j \in 1..4 : LaunchPrimary(i, j) \/ LaunchFallback(i, j)
         \/ NoLaunch
 Spec == Init /\ [][Next]_vars
@@ -283,7 +291,7 @@ RandCand(i) == [t |-> RandomElement(TypeIdx), ct |-> RandomElement(CTs), z |-> R
 RandScenario(k) == [base |-> [i \in TypeIdx |-> [ct \in CTs |-> RandomElement(Prices)]],
                     zmod |-> [ct \in CTs |-> RandomElement(ZMods)],
                     cands |-> [i \in 1..RandomElement(1..MaxCands) |-> RandCand(i)],
-                    rest |-> -1, extra |-> 0, flag |-> RandomElement(BOOLEAN)]
+                    rest |-> -1, extra |-> 0, spike |-> FALSE, flag |-> RandomElement(BOOLEAN)]
 RandInit == /\ wk = "" /\ cmd = NoCmd /\ phase = "setup" /\ launch = [kind |-> "-"]
             /\ sc \in {s \in {RandScenario(k) : k \in 1..GenMod} :
                           \A i \in DOMAIN s.cands : Offered(s, s.cands[i].t, s.cands[i].ct, s.cands[i].z)}
